@@ -153,6 +153,19 @@ open PsycheModel.Generated
 
 set_option maxRecDepth 20000
 
+/-- 6.5.3p1 as a table: `++ --` take a unary-expression, `& * + - ~ !` a cast-expression (`&&`: GNU address of a label, parsed like them); no other token is a prefix operator -/
+def prefixSpec : Kind → Option Bool
+  | .PlusPlusToken | .MinusMinusToken => some true
+  | .AmpersandToken | .AsteriskToken | .PlusToken | .MinusToken | .TildeToken | .ExclamationToken | .AmpersandAmpersandToken => some false
+  | _ => none
+
+/-- generated obligation: the prefix-operator cases of `parseExpressionWithPrecedenceUnary`, with the operand parser each names, are C11's -/
+theorem prefix_operand_table_is_C11 : Kind.all.all (fun k => Facts.prefixOperand k == prefixSpec k) = true := by decide
+/-- … and the postfix loop continues on `++ --` (6.5.2p1), `[`, `(`, `.` and `->` only -/
+theorem postfix_tokens_are_C11 :
+    Facts.postfixIncDec = [.PlusPlusToken, .MinusMinusToken] ∧ Facts.memberAccess = [.DotToken, .ArrowToken] ∧
+    Facts.subscriptOpen = [.OpenBracketToken] ∧ Facts.callOpen = [.OpenParenToken] := by decide
+
 /-- **C06, all layers.**  For every operator table satisfying the five sanity conditions (`Tbl.Sane`; discharged for the
 tables regenerated from the source by `realT_sane`), every expression tree `e` the C11 grammar derives (`ok`: every operand at
 the level its production names - `cond ? expression : conditional-expression`, unary-expression on the left of an assignment
